@@ -23,7 +23,7 @@ LOG=$OUT/confirm.log; : > $LOG
 git -C /repo worktree remove --force $WT >/dev/null 2>&1; rm -rf $WT
 git -C /repo worktree add --detach $WT HEAD >>$LOG 2>&1
 if ! git -C $WT apply --3way $SRC/patch.diff >>$LOG 2>&1 && ! (cd $WT && patch -p1 < $SRC/patch.diff >>$LOG 2>&1); then echo "APPLY FAILED" | tee -a $LOG; exit 3; fi
-git -C $WT diff > $OUT/patch.diff
+git -C $WT diff HEAD > $OUT/patch.diff
 ( cd $WT && cmake -G Ninja -S . -B _b -DCMAKE_BUILD_TYPE=RelWithDebInfo -DCMAKE_CXX_FLAGS=-Wno-error >/dev/null 2>&1 && ninja -C _b >>$LOG 2>&1 ); BUILD=$?
 echo "build rc=$BUILD" | tee -a $LOG
 TESTS=skipped
